@@ -87,11 +87,15 @@ pub fn run_stream_fuzz(ctx: &Ctx, id: &str, ev: &mut Evidence, rep: &mut Report)
     };
     let mut execs = 0u64;
     let mut cov_max = 0u64;
-    let mut text = String::from_utf8_lossy(&out.stderr).to_string();
+    // with -jobs the statistics of each job are in fuzz-<n>.log (the parent only reports exits)
+    let mut text = String::new();
     for j in 0..jobs {
         if let Ok(t) = std::fs::read_to_string(work.join(format!("fuzz-{j}.log"))) {
             text.push_str(&t);
         }
+    }
+    if text.is_empty() {
+        text = String::from_utf8_lossy(&out.stderr).to_string();
     }
     for l in text.lines() {
         if let Some(v) = l.strip_prefix("stat::number_of_executed_units:") {
@@ -118,7 +122,10 @@ pub fn run_stream_fuzz(ctx: &Ctx, id: &str, ev: &mut Evidence, rep: &mut Report)
                 checks::stream_case(&idc, &stream, &mut ev2)
             });
             match res {
-                Ok(Ok(())) => ev.exclude("libFuzzer artifact did not reproduce in-process (timeout / OOM of the fuzzer?)"),
+                Ok(Ok(())) => {
+                    let kind = e.file_name().to_string_lossy().split('-').next().unwrap_or("artifact").to_string();
+                    ev.exclude(&format!("libFuzzer artifact ({kind}) did not reproduce in-process"))
+                }
                 Ok(Err(v)) => rep.violation(v),
                 Err(p) => {
                     // a panic that escapes the oracle code is a harness problem, not a verdict
